@@ -729,6 +729,8 @@ func runSpecOnce(kind string, state uint64, res *hlib.Result) (d string, trace [
 			d, trace = specFaultAll(kind, r, state == 0, res)
 		case "c13retry":
 			d, trace = specRetryFixed(res)
+		case "c13twohop":
+			d, trace = specTwoHop(r, res)
 		case "c03nilkey":
 			d, trace = specNilKey(res)
 		case "c03nilval":
@@ -821,6 +823,11 @@ func runSpec(rng *hlib.Rng, n int, focus string, res *hlib.Result) {
 		cr := rng.Fork()
 		before := len(res.Failures)
 		kind := focus
+		if focus == "c13" && i%5 == 4 {
+			// chains of roots inside one version (hashed backend): the log served for (start, end) over
+			// two hops must lead from the start root to the end root
+			kind = "c13twohop"
+		}
 		if (focus == "c02" || focus == "c03") && i%3 == 2 {
 			// fault histories: a failed operation on a lazily loaded tree has no effect (fault.go)
 			kind = focus + "fault"
@@ -907,6 +914,96 @@ func specRetryFixed(res *hlib.Result) (string, []string) {
 		}
 		im.close()
 		res.Count("spec:c13-retry-fixed-scenario:" + backend)
+	}
+	return "", nil
+}
+
+
+// specTwoHop: the hashed (badger) backend serves write logs for a CHAIN of roots inside one version
+// (empty -> i -> io, as a runtime's I/O tree is built): the log served for (start, end) over two hops —
+// and for each single hop — applied to a tree at the start root must give exactly the end root; the second
+// hop overwrites and removes keys the first hop wrote.
+func specTwoHop(r *hlib.Rng, res *hlib.Result) (string, []string) {
+	g := &keygen{r: r}
+	src := newImpl("badgermem", 0, 0)
+	defer src.close()
+	src.tree.Close()
+	src.tree = mkvs.New(nil, src.ndb, node.RootTypeIO)
+	const version = 1
+	trace := []string{"new badgermem", "root-type io"}
+	rootOf := func(h hash.Hash) node.Root {
+		return node.Root{Namespace: testNs, Version: version, Type: node.RootTypeIO, Hash: h}
+	}
+	var empty hash.Hash
+	empty.Empty()
+	roots := []node.Root{rootOf(empty)}
+	conts := []contents{{}}
+	cur := contents{}
+	var pool [][]byte
+	for i := 0; i < 3+r.Intn(5); i++ {
+		pool = append(pool, g.key())
+	}
+	for hop := 0; hop < 2+r.Intn(2); hop++ {
+		for i := 0; i < 1+r.Intn(6); i++ {
+			k := pool[r.Intn(len(pool))]
+			var err error
+			if _, ok := cur[string(k)]; ok && r.Chance(1, 3) {
+				trace = append(trace, "remove "+hx(k))
+				delete(cur, string(k))
+				err = src.tree.Remove(ctx, k)
+			} else {
+				v := genValue(r)
+				trace = append(trace, fmt.Sprintf("insert %s %s", hx(k), hx(v)))
+				cur[string(k)] = v
+				err = src.tree.Insert(ctx, k, v)
+			}
+			if err != nil {
+				return "spec-c13-error: " + err.Error(), trace
+			}
+		}
+		_, h, err := src.tree.Commit(ctx, testNs, version)
+		if err != nil {
+			return "spec-c13-error: commit of hop: " + err.Error(), trace
+		}
+		trace = append(trace, "commit (same version)")
+		if h.Equal(&roots[len(roots)-1].Hash) {
+			continue
+		}
+		repeat := false
+		for _, x := range roots {
+			repeat = repeat || h.Equal(&x.Hash)
+		}
+		if repeat {
+			break // the chain came back to an earlier root: (start, end) is no longer a path
+		}
+		roots = append(roots, rootOf(h))
+		conts = append(conts, cur.clone())
+	}
+	for i := 0; i < len(roots); i++ {
+		// (the backend searches at most two hops back: `maxAllowedHops = 2` in badger GetWriteLog)
+		for j := i + 1; j < len(roots) && j <= i+2; j++ {
+			it, err := src.ndb.GetWriteLog(ctx, roots[i], roots[j])
+			if err != nil {
+				return fmt.Sprintf("spec-c13-getwritelog-error: chain of %d hops (%d -> %d): %v", j-i, i, j, err), trace
+			}
+			wl, err := drainLog(it)
+			if err != nil {
+				return fmt.Sprintf("spec-c13-getwritelog-error: chain of %d hops: %v", j-i, err), trace
+			}
+			// replay in the served order on the start contents
+			got := conts[i].clone()
+			for _, e := range wl {
+				if e.Value == nil {
+					delete(got, string(e.Key))
+				} else {
+					got[string(e.Key)] = e.Value
+				}
+			}
+			if got.String() != conts[j].String() {
+				return fmt.Sprintf("spec-c13-log-does-not-reach-root: the log served for a chain of %d hops inside one version (%s) applied to %v gives %v, the end root holds %v", j-i, logToString(wl), conts[i], got, conts[j]), trace
+			}
+			res.Count(fmt.Sprintf("spec:c13-chain-log-%d-hops", j-i))
+		}
 	}
 	return "", nil
 }
